@@ -29,7 +29,7 @@ theorem copyLoop_spec (chunk : Nat) (hc : 1 ≤ chunk) :
 /-! ### upload = prune -/
 
 /-- what `upload` reports for a pruned source -/
-def outcome (ignoreInvalid : Bool) : Option Tree → Except Err (Option Tree)
+def outcome (ignoreInvalid : Bool) : Option Tree → Except FErr (Option Tree)
   | some t => .ok (some t)
   | none => if ignoreInvalid then .ok none else .error .valueError
 
@@ -78,12 +78,12 @@ end
 
 /-! ### pruning, path by path -/
 
-def itemsOpt (pre : List String) : Option Tree → List Item
+def itemsOpt (pre : List Name) : Option Tree → List Item
   | some t => items pre t
   | none => []
 
 mutual
-theorem items_path : ∀ (t : Tree) (pre : List String), ∀ i ∈ items pre t, ∃ suf, i.path = pre ++ suf
+theorem items_path : ∀ (t : Tree) (pre : List Name), ∀ i ∈ items pre t, ∃ suf, i.path = pre ++ suf
   | .dir es, pre, i, hi => by
     simp only [items, List.mem_cons] at hi
     rcases hi with rfl | hi
@@ -95,7 +95,7 @@ theorem items_path : ∀ (t : Tree) (pre : List String), ∀ i ∈ items pre t, 
   | .other, pre, i, hi => by
     simp only [items, List.mem_singleton] at hi
     subst hi; exact ⟨[], by simp [Item.path]⟩
-theorem itemsOf_path : ∀ (es : Entries) (pre : List String), ∀ i ∈ itemsOf pre es, ∃ suf, i.path = pre ++ suf
+theorem itemsOf_path : ∀ (es : Entries) (pre : List Name), ∀ i ∈ itemsOf pre es, ∃ suf, i.path = pre ++ suf
   | .nil, pre, i, hi => by simp [itemsOf] at hi
   | .cons n t rest, pre, i, hi => by
     simp only [itemsOf, List.mem_append] at hi
@@ -106,7 +106,7 @@ theorem itemsOf_path : ∀ (es : Entries) (pre : List String), ∀ i ∈ itemsOf
 end
 
 /-- below an entry whose name passes, "kept relative to the parent" = "kept relative to the entry" -/
-theorem keeps_step (f : Filter) (pre : List String) (n : String) (hp : passes f n = true) (i : Item)
+theorem keeps_step (f : Filter) (pre : List Name) (n : Name) (hp : passes f n = true) (i : Item)
     (hi : ∃ suf, i.path = (pre ++ [n]) ++ suf) : keeps f pre.length i = keeps f (pre.length + 1) i := by
   obtain ⟨suf, h⟩ := hi
   have h1 : List.drop pre.length i.path = n :: suf := by rw [h]; simp
@@ -116,7 +116,7 @@ theorem keeps_step (f : Filter) (pre : List String) (n : String) (hp : passes f 
   simp [keeps, h1, h2, hp]
 
 /-- below an entry whose name is rejected nothing is kept -/
-theorem keeps_rejected (f : Filter) (pre : List String) (n : String) (hp : passes f n = false) (i : Item)
+theorem keeps_rejected (f : Filter) (pre : List Name) (n : Name) (hp : passes f n = false) (i : Item)
     (hi : ∃ suf, i.path = (pre ++ [n]) ++ suf) : keeps f pre.length i = false := by
   obtain ⟨suf, h⟩ := hi
   have h1 : List.drop pre.length i.path = n :: suf := by rw [h]; simp
@@ -124,7 +124,7 @@ theorem keeps_rejected (f : Filter) (pre : List String) (n : String) (hp : passe
 
 mutual
 theorem prune_items (f : Filter) :
-    ∀ (t : Tree) (pre : List String), itemsOpt pre (prune f t) = (items pre t).filter (keeps f pre.length)
+    ∀ (t : Tree) (pre : List Name), itemsOpt pre (prune f t) = (items pre t).filter (keeps f pre.length)
   | .dir es, pre => by
     simp only [prune, itemsOpt, items, List.filter_cons]
     have hk : keeps f pre.length (.dirAt pre) = true := by simp [keeps, Item.isOther, Item.path]
@@ -134,7 +134,7 @@ theorem prune_items (f : Filter) :
   | .other, pre => by
     simp [prune, itemsOpt, items, keeps, Item.isOther]
 theorem pruneEntries_items (f : Filter) :
-    ∀ (es : Entries) (pre : List String),
+    ∀ (es : Entries) (pre : List Name),
       itemsOf pre (pruneEntries f es) = (itemsOf pre es).filter (keeps f pre.length)
   | .nil, pre => by simp [pruneEntries, itemsOf]
   | .cons n t rest, pre => by
@@ -177,7 +177,7 @@ theorem Entries.names_append : ∀ a b : Entries, (a.append b).names = a.names +
   | .nil, _ => rfl
   | .cons n t rest, b => by simp [Entries.append, Entries.names, Entries.names_append rest b]
 
-theorem Entries.find_append_notin : ∀ (pre ds : Entries) (n : String), n ∉ pre.names →
+theorem Entries.find_append_notin : ∀ (pre ds : Entries) (n : Name), n ∉ pre.names →
     (pre.append ds).find n = ds.find n
   | .nil, _, _, _ => rfl
   | .cons m t rest, ds, n, h => by
@@ -185,7 +185,7 @@ theorem Entries.find_append_notin : ∀ (pre ds : Entries) (n : String), n ∉ p
     have hm : ¬ m = n := fun e => h.1 e.symm
     simp [Entries.append, Entries.find, hm, Entries.find_append_notin rest ds n h.2]
 
-theorem Entries.set_append_notin : ∀ (pre ds : Entries) (n : String) (t : Tree), n ∉ pre.names →
+theorem Entries.set_append_notin : ∀ (pre ds : Entries) (n : Name) (t : Tree), n ∉ pre.names →
     (pre.append ds).set n t = pre.append (ds.set n t)
   | .nil, _, _, _, _ => rfl
   | .cons m d rest, ds, n, t, h => by
@@ -193,14 +193,14 @@ theorem Entries.set_append_notin : ∀ (pre ds : Entries) (n : String) (t : Tree
     have hm : ¬ m = n := fun e => h.1 e.symm
     simp [Entries.append, Entries.set, hm, Entries.set_append_notin rest ds n t h.2]
 
-theorem Entries.find_notin : ∀ (ds : Entries) (n : String), n ∉ ds.names → ds.find n = none
+theorem Entries.find_notin : ∀ (ds : Entries) (n : Name), n ∉ ds.names → ds.find n = none
   | .nil, _, _ => rfl
   | .cons m t rest, n, h => by
     simp only [Entries.names, List.mem_cons, not_or] at h
     have hm : ¬ m = n := fun e => h.1 e.symm
     simp [Entries.find, hm, Entries.find_notin rest n h.2]
 
-theorem Entries.set_notin : ∀ (ds : Entries) (n : String) (t : Tree), n ∉ ds.names →
+theorem Entries.set_notin : ∀ (ds : Entries) (n : Name) (t : Tree), n ∉ ds.names →
     ds.set n t = ds.append (.cons n t .nil)
   | .nil, _, _, _ => rfl
   | .cons m d rest, n, t, h => by
@@ -208,7 +208,7 @@ theorem Entries.set_notin : ∀ (ds : Entries) (n : String) (t : Tree), n ∉ ds
     have hm : ¬ m = n := fun e => h.1 e.symm
     simp [Entries.set, Entries.append, hm, Entries.set_notin rest n t h.2]
 
-theorem Entries.set_find_self : ∀ (ds : Entries) (n : String) (x : Tree), ds.find n = some x → ds.set n x = ds
+theorem Entries.set_find_self : ∀ (ds : Entries) (n : Name) (x : Tree), ds.find n = some x → ds.set n x = ds
   | .nil, _, _, h => by simp [Entries.find] at h
   | .cons m d rest, n, x, h => by
     by_cases hm : m = n
@@ -218,7 +218,7 @@ theorem Entries.set_find_self : ∀ (ds : Entries) (n : String) (x : Tree), ds.f
       simp [Entries.set, hm, Entries.set_find_self rest n x h]
 
 /-- an entry that is neither file nor directory leaves the destination directory as it is -/
-theorem uploadDirOver_other_step (chunk : Nat) (f : Filter) (n : String) (rest ds : Entries)
+theorem uploadDirOver_other_step (chunk : Nat) (f : Filter) (n : Name) (rest ds : Entries)
     (hp : passes f n = true) :
     uploadDirOver chunk f (.cons n .other rest) ds = uploadDirOver chunk f rest ds := by
   simp only [uploadDirOver, hp, if_true, uploadOver]
@@ -365,5 +365,98 @@ theorem uploadDirOver_sameShape (chunk : Nat) (hc : 1 ≤ chunk) (f : Filter) :
           rw [this, Entries.append_assoc]
           rfl
 end
+
+/-! ### `download` is `upload` -/
+
+theorem downloadLoop_eq (chunk : Nat) : ∀ (f : Nat) (a b : Bytes), downloadLoop chunk f a b = copyLoop chunk f a b := by
+  intro f
+  induction f with
+  | zero => intro a b; rfl
+  | succ f ih => intro a b; simp [downloadLoop, copyLoop, ih]
+
+theorem downloadFile_eq (chunk : Nat) (b : Bytes) : downloadFile chunk b = copyFile chunk b := by
+  simp [downloadFile, copyFile, downloadLoop_eq]
+
+mutual
+theorem download_eq_upload (chunk : Nat) (f : Filter) (ii : Bool) : ∀ t : Tree, download chunk f ii t = upload chunk f ii t
+  | .dir es => by simp only [download, upload, downloadDir_eq_uploadDir chunk f es]
+  | .file b => by simp only [download, upload, downloadFile_eq]
+  | .other => by simp only [download, upload]
+theorem downloadDir_eq_uploadDir (chunk : Nat) (f : Filter) :
+    ∀ es : Entries, downloadDir chunk f es = uploadDir chunk f es
+  | .nil => by simp only [downloadDir, uploadDir]
+  | .cons n t rest => by
+    simp only [downloadDir, uploadDir, download_eq_upload chunk f true t, downloadDir_eq_uploadDir chunk f rest]
+end
+
+/-! ### a transfer onto any destination = the pruned source laid over it -/
+
+/-- the specification: prune, then overlay -/
+def overSpec (f : Filter) (ii : Bool) (t : Tree) (dst : Option Tree) : Except FErr (Option Tree) :=
+  match prune f t with
+  | none => if ii then .ok dst else .error .valueError
+  | some pt =>
+    match overlay pt dst with
+    | .ok r => .ok (some r)
+    | .error e => .error e
+
+mutual
+theorem uploadOver_eq_overlay (chunk : Nat) (hc : 1 ≤ chunk) (f : Filter) (ii : Bool) :
+    ∀ (t : Tree) (dst : Option Tree), uploadOver chunk f ii t dst = overSpec f ii t dst
+  | .dir es, dst => by
+    simp only [overSpec, prune]
+    cases dst with
+    | none => simp only [uploadOver, overlay, uploadDirOver_eq_overlay chunk hc f es .nil]; split <;> rfl
+    | some d =>
+      cases d with
+      | dir ds => simp only [uploadOver, overlay, uploadDirOver_eq_overlay chunk hc f es ds]; split <;> rfl
+      | file b => simp only [uploadOver, overlay]
+      | other => simp only [uploadOver, overlay]
+  | .file b, dst => by
+    have hcopy : copyFile chunk b = b := by
+      unfold copyFile; rw [copyLoop_spec chunk hc _ _ _ (Nat.lt_succ_self _)]; simp
+    simp only [overSpec, prune]
+    cases dst with
+    | none => simp only [uploadOver, overlay, hcopy]
+    | some d => cases d <;> simp only [uploadOver, overlay, hcopy]
+  | .other, dst => by simp only [overSpec, prune, uploadOver]
+theorem uploadDirOver_eq_overlay (chunk : Nat) (hc : 1 ≤ chunk) (f : Filter) :
+    ∀ (es ds : Entries), uploadDirOver chunk f es ds = overlayEntries (pruneEntries f es) ds
+  | .nil, ds => by simp only [uploadDirOver, pruneEntries, overlayEntries]
+  | .cons n t rest, ds => by
+    cases hp : passes f n with
+    | false =>
+      simp only [uploadDirOver, pruneEntries, hp, Bool.false_eq_true, if_false]
+      exact uploadDirOver_eq_overlay chunk hc f rest ds
+    | true =>
+      cases hpr : prune f t with
+      | none =>
+        have ht := (prune_none_iff f t).mp hpr
+        subst ht
+        rw [uploadDirOver_other_step chunk f n rest ds hp]
+        simp only [pruneEntries, hp, if_true, prune]
+        exact uploadDirOver_eq_overlay chunk hc f rest ds
+      | some pt =>
+        have h1 := uploadOver_eq_overlay chunk hc f true t (ds.find n)
+        simp only [overSpec, hpr] at h1
+        simp only [uploadDirOver, pruneEntries, hp, if_true, hpr, overlayEntries, h1]
+        cases overlay pt (ds.find n) with
+        | error e => rfl
+        | ok r => exact uploadDirOver_eq_overlay chunk hc f rest (ds.set n r)
+end
+
+/-! ### definitional lemmas (one-step unfoldings; not counted as property theorems) -/
+
+/-- a path that is neither a directory nor a regular file: `ValueError`, unless `ignore_invalid` (then
+nothing is created); inside a tree such entries are skipped -/
+theorem invalid_top_level (chunk : Nat) (f : Filter) :
+    upload chunk f false .other = .error .valueError ∧ upload chunk f true .other = .ok none := by
+  simp [upload]
+
+/-- the filter sees the entry's name, never the top-level path: a single file is always transferred -/
+theorem top_level_not_filtered (chunk : Nat) (hc : 1 ≤ chunk) (f : Filter) (ii : Bool) (b : Bytes) :
+    upload chunk f ii (.file b) = .ok (some (.file b)) := by
+  rw [upload_eq chunk hc]; rfl
+
 
 end Rpyc.Files
